@@ -2,7 +2,7 @@
 from mats import *
 
 RULE = ("seeded random integer matrices x integer points arrays of dimension 1, 2 and 3 (points inside, on facets of, and "
-        "outside the polyhedron; groups of 1-4 points; stacks of 1-3 groups; a few matrices with 4097-12290 points; 35% with narrow integer dtypes (int8/int16/int32/uint8) for the polyhedron and / or the points, coefficients scaled so that entries fit but row sums may not); ineqs_satisfied / separable / "
+        "outside the polyhedron; groups of 1-4 points; stacks of 1-3 groups; a few matrices with 4097-12290 points; 30% of the point arrays in Fortran order / as strided or transposed views; 35% with narrow integer dtypes (int8/int16/int32/uint8) for the polyhedron and / or the points, coefficients scaled so that entries fit but row sums may not); ineqs_satisfied / separable / "
         "ineq_separate_points compared with the model including nesting shape and scalar-vs-array; oracle: direct A x >= b "
         "with Python ints; non-trivial = at least one point violates some but not all rows or lies on a facet")
 ASSUMPTIONS = ["at least one row and one column"]
@@ -19,6 +19,15 @@ def do_case(ctx, inp):
     p, d, pts = inp["p"], inp["d"], inp["pts"]
     g = real_poly(p, dtype=inp.get("pdtype"))
     arr = np.array(pts, dtype=np.dtype(inp.get("xdtype", "int64")))
+    lay = inp.get("layout")
+    if lay == "fortran":
+        arr = np.asfortranarray(arr)
+    elif lay == "strided" and arr.ndim >= 1:
+        # a non-contiguous view with the same values: every second element of a twice-as-long last-but-one axis
+        big = np.repeat(arr, 2, axis=0) if arr.ndim > 1 else np.repeat(arr, 2)
+        arr = big[::2]
+    elif lay == "transposed" and arr.ndim == 3:
+        arr = np.ascontiguousarray(arr.transpose(2, 1, 0)).transpose(2, 1, 0)      # same values, column-major strides
     sat = tolist(g.ineqs_satisfied(arr))
     sep = tolist(g.separable(arr))
     rowsep = tolist(g.ineq_separate_points(arr))
@@ -26,7 +35,7 @@ def do_case(ctx, inp):
     def viol(x): return [dot(cs, x) < b for b, cs in p["rows"]]
     vs = [viol(x) for x in flat]
     facet = any(dot(cs, x) == b for x in flat for b, cs in p["rows"])
-    ctx.case(inp, nontrivial=facet or any(any(v) and not all(v) for v in vs), tags=({"thousands-of-points"} if inp.get("big") else set()) | {f"ndim-{d}", "poly-dtype-" + str(inp.get("pdtype", "int64")), "points-dtype-" + str(inp.get("xdtype", "int64"))}
+    ctx.case(inp, nontrivial=facet or any(any(v) and not all(v) for v in vs), tags=({"thousands-of-points"} if inp.get("big") else set()) | ({"layout-" + inp["layout"]} if inp.get("layout") else set()) | {f"ndim-{d}", "poly-dtype-" + str(inp.get("pdtype", "int64")), "points-dtype-" + str(inp.get("xdtype", "int64"))}
              | ({"facet-point"} if facet else set())
              | ({"row-sum-exceeds-narrow-dtype"} if inp.get("pdtype") in ("int8", "int16") and any(abs(dot(cs, x)) > (127 if inp["pdtype"] == "int8" else 32767) for x in flat for _, cs in p["rows"]) else set()))
     ctx.op({"op": "classify", "p": p, "d": d, "pts": pts}, {"sat": sat, "sep": sep, "rowsep": rowsep})
@@ -97,4 +106,6 @@ def run(ctx):
             fixx = lambda x: [max(lo_x, min(lim[xd], v)) for v in x]
             pts2 = fixx(pts) if d == 1 else [fixx(x) for x in pts] if d == 2 else [[fixx(x) for x in grp] for grp in pts]
             inp = {"p": p2, "d": d, "pts": pts2, "pdtype": pd_, "xdtype": xd}
+        if ctx.rng.random() < 0.3:
+            inp["layout"] = ctx.rng.choice(["fortran", "strided", "transposed"])
         do_case(ctx, inp)
